@@ -156,8 +156,9 @@ impl<TS: TimeSource> BeaconSerializer<TS> {
         let mut data = from_base62(data).expect("Invalid input");
         let mut peers = Vec::new();
         let mut pos = 0;
-        if data.len() < 4 {
-            return peers;
+        // The text form drops leading zero bytes. A peer list has 4 + 6n bytes, restore them.
+        while data.len() < 4 || (data.len() - 4) % 6 != 0 {
+            data.insert(0, 0);
         }
         if !self.decrypt_data(&mut data) {
             return peers;
